@@ -424,18 +424,34 @@ var flagID = map[byte]string{
 // model reproduces the code.
 const repeatedID = "C13-repeated-location"
 
-// curFlags is Dev.current of the model: every flag, minus VERIF_FIXED=<letters> (to try the harness against
-// a tree patched with a proposed fix).
-var curFlags = func() string {
-	s := allFlags
+// curFlags is Dev.current of the model (asked from the driver at start), minus VERIF_FIXED=<letters> (to try the
+// harness against a tree patched with a proposed fix).
+var curFlags = allFlags
+
+func initFlags() {
+	d, err := lib.StartDriver(*driver)
+	if err != nil {
+		fmt.Fprintln(os.Stderr, "harness failure:", err)
+		os.Exit(3)
+	}
+	defer d.Close()
+	a, err := d.Ask1("current")
+	if err != nil || a == "bad-op" {
+		fmt.Fprintln(os.Stderr, "harness failure: the driver does not name its deviation flags:", a, err)
+		os.Exit(3)
+	}
+	s := a
+	if s == "-" {
+		s = ""
+	}
 	for _, ch := range os.Getenv("VERIF_FIXED") {
 		s = strings.ReplaceAll(s, string(ch), "")
 	}
 	if s == "" {
-		return "-"
+		s = "-"
 	}
-	return s
-}()
+	curFlags = s
+}
 
 func minus(flags string, off string) string {
 	for _, ch := range off {
@@ -1366,6 +1382,7 @@ func main() {
 	flag.Parse()
 	rep = lib.NewReport(*prop, *tier, *seed)
 	knownList = lib.LoadKnown(*known, *prop)
+	initFlags()
 	if *replay != "" {
 		runReplay()
 		return
